@@ -108,3 +108,20 @@ def Plan.none : Plan := fun _ => Option.none
 def Plan.count (plan : Plan) (n : Nat) : Nat := ((List.range n).filter fun i => (plan i).isSome).length
 
 end Mdsort.Model
+
+namespace Mdsort.Model
+
+/-- Run a program against ARBITRARY results (`orc i c` is the result of the i-th call): this
+covers every behaviour of the file system, of faults and of other parties acting in between.
+Returns the value and the trace of calls with their results. -/
+def runOracle {α} (orc : Nat → Call → Res) : Prog α → Nat → List (Call × Res) → α × List (Call × Res)
+  | .ret a, _, tr => (a, tr)
+  | .call c k, i, tr => runOracle orc (k (orc i c)) (i + 1) (tr ++ [(c, orc i c)])
+
+/-- Names this run created with a successful exclusive create. -/
+def createdNames (tr : List (Call × Res)) : List Bytes :=
+  tr.filterMap fun
+    | (.openExcl _ n, .ok _) => some n
+    | _ => none
+
+end Mdsort.Model
